@@ -135,6 +135,12 @@ def run(chk, want=("c16",), level_note=LEVEL_NOTE):
             if not acc:
                 continue
             chk.count("entries", len(ri.s2t))
+            if "c16" in want and rm is not None and rm.cls == "done" and rm.unique == "overlap":
+                # the hypothesis of the round-trip theorems does not hold for this file's entries
+                chk.broke("proof", "C16_round_trip hypothesis keys_unique", "two insertions share a template or a generated position",
+                          input_hex=hx(c), input_text=c.decode("utf-8", "replace")[:600])
+            elif "c16" in want and rm is not None:
+                chk.count("keys_unique-holds")
             fails, txt = check_tables(chk, c, ri, rm if not compilecmp.diff(rm, ri, ("s2t", "t2s", "ctext")) else None, want)
             for msg, known in fails[:50]:
                 if known:
